@@ -21,7 +21,7 @@ request (JSON on stdin):
           | ["add_cycle", n]                     create theories c12cyc_0..n-1 importing each other in a ring
           | ["load_cycle", k]                    load c12cyc_k: must raise
           | ["remove_cycle"]
-          | ["add_broken"]                       create theory c12broken (3rd item declares an existing constant)
+          | ["add_broken"] | ["add_broken", 1]   create theory c12broken (3rd item declares an existing constant | has an unknown kind)
           | ["load_broken"]                      must raise
           | ["remove_broken"]
 
@@ -183,7 +183,16 @@ def marker_item(tag):
     return {'ty': 'thm.ax', 'name': 'c12_marker_%s' % tag, 'vars': {'c12x': "'a"}, 'prop': 'c12x = c12x'}
 
 
-def broken_theory():
+def broken_theory(variant=0):
+    if variant == 1:
+        # the third item is of an unknown kind: parsing it raises in the middle of the load
+        return {'name': 'c12broken', 'imports': ['logic_base'], 'description': 'third item has an unknown kind',
+                'content': [
+                    {'ty': 'thm.ax', 'name': 'c12_b1', 'vars': {'x': "'a"}, 'prop': 'x = x'},
+                    {'ty': 'def.ax', 'name': 'c12_bc', 'type': 'bool'},
+                    {'ty': 'c12.nosuchkind', 'name': 'c12_bx'},
+                    {'ty': 'thm.ax', 'name': 'c12_b2', 'vars': {'x': "'a"}, 'prop': 'x = x'},
+                ]}
     return {'name': 'c12broken', 'imports': ['logic_base'], 'description': 'third item redeclares a constant',
             'content': [
                 {'ty': 'thm.ax', 'name': 'c12_b1', 'vars': {'x': "'a"}, 'prop': 'x = x'},
@@ -290,7 +299,7 @@ def run_history(req):
                 files.remove('c12cyc_%d' % i)
             ev = {'status': 'done'}
         elif kind == 'add_broken':
-            files.write('c12broken', broken_theory())
+            files.write('c12broken', broken_theory(int(op[1]) if len(op) > 1 else 0))
             ev = {'status': 'done'}
         elif kind == 'load_broken':
             ev = attempt(lambda: basic.load_theory('c12broken'))
